@@ -12,6 +12,9 @@ LOGGING = [r"logger\.(debug|info|warning|error)$", r"^self\.logger\.", r"^self\.
 
 def cores(repo):
     from csvpath.util.config import OnError
+    from csvpath.modes.return_mode import ReturnMode
+    from csvpath.modes.run_mode import RunMode
+    from csvpath.modes.unmatched_mode import UnmatchedMode
 
     return [
         (py2lean.Core(
@@ -57,6 +60,18 @@ def cores(repo):
             doc="C01/C02/C03/C13/C15: what `CsvPath._consider_line` does with one record (heap mode: attribute writes are state; "
                 "`self.matches(line)` is an opaque call into the matcher, `self.scanner.includes/is_last` are questions to the scanner)."),
          [("CsvPath", "_consider_line")]),
+        (py2lean.Core(
+            repo, "Modes",
+            [("csvpath/modes/return_mode.py", "ReturnMode", ["value"]),
+             ("csvpath/modes/run_mode.py", "RunMode", ["value"]),
+             ("csvpath/modes/unmatched_mode.py", "UnmatchedMode", ["value"])],
+            heap=True,
+            ignore=LOGGING,
+            observers_args={"self.controller.get"},
+            consts={"ReturnMode": ReturnMode, "RunMode": RunMode, "UnmatchedMode": UnmatchedMode},
+            doc="C15: how the return-mode, run-mode and unmatched-mode settings of the outer comment are read (the `value` getters; "
+                "`self.controller.get(<mode>)` is the metadata field of that name)."),
+         [("ReturnMode", "value"), ("RunMode", "value"), ("UnmatchedMode", "value")]),
     ]
 
 
@@ -76,7 +91,9 @@ def generate(repo, outdir):
             ok, msg = False, f"{e.__class__.__name__}: {e}"
         old = open(path, encoding="utf-8").read() if os.path.exists(path) else None
         if old != text:
-            with open(path, "w", encoding="utf-8") as f:
+            tmp = f"{path}.{os.getpid()}.tmp"      # (checks may run side by side: never leave a half-written file behind)
+            with open(tmp, "w", encoding="utf-8") as f:
                 f.write(text)
+            os.replace(tmp, path)
         res.append((core.name, ok, msg))
     return res
